@@ -74,8 +74,10 @@ class Path:
         # theory_recfun::propagate, outside the reach of the timeout
         s = z3.Solver()
         s.set("timeout", self.engine.feas_timeout_ms)
-        s.add(*self.pc)
-        s.add(c)
+        from . import specfun
+        terms, axioms = specfun.defuel(list(self.pc) + [c], 1)
+        s.add(*terms)
+        s.add(*axioms)
         t0 = time.time()
         r = s.check()
         self.engine.stats["feasibility_s"] += time.time() - t0
@@ -148,7 +150,7 @@ class Engine:
                                         # paths are vacuous anyway), which avoids thousands of solver calls
         self.stats = {"paths": 0, "feasibility_checks": 0, "feasibility_s": 0.0}
 
-    def explore(self, run, nested=False):
+    def explore(self, run, nested=False, on_path=None):
         """run(path) executes one path (may raise PathEnd).  Returns the list of completed Path objects.
         Top-level explorations restart the fresh-name counter for every path (a replayed prefix then
         regenerates identical names); nested ones (comprehension bodies) never reset it."""
@@ -164,17 +166,85 @@ class Engine:
             except PathEnd:
                 pass
             done.append(p)
+            if on_path is not None:
+                on_path(p, len(done) - 1)
             self.stats["paths"] += 1
             if len(done) > self.max_paths:
                 raise RuntimeError("path explosion")
         return done
 
 
+def _conjuncts(g):
+    if z3.is_and(g):
+        out = []
+        for c in g.children():
+            out += _conjuncts(c)
+        return out
+    return [g]
+
+
 def discharge(ob, timeout_ms=10000):
-    """Decide one obligation with z3: status 'proved' | 'failed' (with model) | 'unknown'."""
+    """Decide one obligation with z3: status 'proved' | 'failed' (with model) | 'unknown'.  A conjunctive goal is
+    decided conjunct by conjunct (smaller queries; the first conjunct that is not proved gives the verdict)."""
+    parts = _conjuncts(z3.simplify(ob.goal)) if ob.kind != "canary" else [ob.goal]
+    if len(parts) > 1:
+        t0 = time.time()
+        verdict = None
+        for i, g in enumerate(parts):
+            sub = Obligation(f"{ob.name}#c{i}", ob.pc, g, ob.kind, ob.info)
+            _discharge1(sub, timeout_ms)
+            ob.backend = sub.backend
+            if sub.status != "proved":
+                verdict = sub
+                if sub.status == "failed":
+                    break
+        ob.solver_s = time.time() - t0
+        if verdict is None:
+            ob.status = "proved"
+        else:
+            ob.status, ob.model, ob.reason = verdict.status, verdict.model, (verdict.reason or "") + f" (conjunct {verdict.name[-3:]})"
+        return ob
+    return _discharge1(ob, timeout_ms)
+
+
+def _discharge1(ob, timeout_ms=10000):
     t0 = time.time()
     r = z3.unknown
     # z3's sequence solver is unstable on identical input: an `unknown` is retried with other random seeds
+    from . import specfun
+    if specfun._DEFS:
+        # spec functions by bounded unfolding (pyvc/specfun.py): only `unsat` is conclusive
+        for fuel in (1, 2):
+            terms, axioms = specfun.defuel(list(ob.pc) + [z3.Not(ob.goal)], fuel)
+            s = z3.Solver()
+            s.set("timeout", max(timeout_ms // 2, 2000))
+            s.add(*terms)
+            s.add(*axioms)
+            r = s.check()
+            import os as _os
+            if _os.environ.get("PYVC_DUMP_OB") and r != z3.unsat:
+                _d = _os.environ["PYVC_DUMP_OB"]
+                open(_os.path.join(_d, f"ob{len(_os.listdir(_d))}_f{fuel}_{r}.smt2"), "w").write(f"; {ob.name}\n" + s.to_smt2())
+            if not axioms:
+                break                    # no spec function occurs in this obligation
+            if r == z3.unsat or fuel == 2:
+                ob.solver_s = time.time() - t0
+                ob.attempts = fuel
+                ob.backend = "z3-" + z3.get_version_string() + f" (spec functions unfolded to depth {fuel})"
+                if r == z3.unsat:
+                    ob.status = "proved"
+                elif r == z3.sat:
+                    # not provable with the definitions unfolded twice: reported like any failed obligation (the model is
+                    # a counterexample candidate only; replay decides whether it is a failing input)
+                    ob.status = "failed"
+                    try:
+                        ob.model = s.model()
+                    except z3.Z3Exception:
+                        ob.model = None
+                else:
+                    ob.status = "unknown"
+                    ob.reason = s.reason_unknown()
+                return ob
     for attempt, seed in enumerate((0, 7, 23)):
         s = z3.Solver()
         s.set("timeout", timeout_ms if attempt == 0 else max(timeout_ms // 2, 2000))
